@@ -79,12 +79,56 @@ Proof.
   induction L as [|x L IH]; cbn; auto. intros H. rewrite (H x), IH; auto.
 Qed.
 
+(* ================================================================== generic in the environment ====== *)
+Section EnvProofs.
+Context {env state : Type}.
+Variable e_step : env -> state -> list Z -> state * trans.
+Variable e_reset : env -> state -> option Z -> state * (dict obs_t * dict info_t).
+Variable e_kind : env -> okind.
+Variable e_live : state -> list nat.
+(* contract of the environment: its termination / truncation flags say that every listed agent has
+   finished exactly when its agent list becomes empty *)
+Hypothesis C_done : forall E s acts,
+  all_done_keys (snd (e_step E s acts)) = g_no_agent_left e_live (fst (e_step E s acts)).
+
+Theorem g_worker_refines_single E agents s acts :
+  g_worker_step e_step e_reset e_kind E agents s acts =
+  (fst (g_single_step e_step e_reset e_live E s acts),
+   process_transition (e_kind E) agents (snd (g_single_step e_step e_reset e_live E s acts))).
+Proof.
+  unfold g_worker_step, g_worker_step_with, g_single_step.
+  pose proof (C_done E s acts) as H.
+  destruct (e_step E s acts) as [s1 tr]. cbn [fst snd] in H. rewrite H.
+  destruct (g_no_agent_left e_live s1).
+  - destruct (e_reset E s1 None) as [s2 [o i]]. reflexivity.
+  - destruct tr; reflexivity.
+Qed.
+
+Theorem g_wrapper_same_condition E s acts :
+  g_wrapper_step e_step e_reset E s acts = g_single_step e_step e_reset e_live E s acts.
+Proof.
+  unfold g_wrapper_step, g_single_step.
+  pose proof (C_done E s acts) as H.
+  destruct (e_step E s acts) as [s1 tr]. cbn [fst snd] in H. rewrite H. reflexivity.
+Qed.
+
+(* the positional test agrees with the per-key test whenever it agrees on this transition *)
+Lemma g_worker_zip_when E agents s acts :
+  all_done_zip (snd (e_step E s acts)) = all_done_keys (snd (e_step E s acts)) ->
+  g_worker_step_zip e_step e_reset e_kind E agents s acts = g_worker_step e_step e_reset e_kind E agents s acts.
+Proof.
+  intros H. unfold g_worker_step_zip, g_worker_step, g_worker_step_with.
+  destruct (e_step E s acts) as [s1 tr]. cbn [snd] in H. rewrite H. reflexivity.
+Qed.
+End EnvProofs.
+
+(* ================================================================== the scripted family ============= *)
 (* the per-key test (wrapper, and worker after the fix) holds exactly when no agent is left alive,
    whatever the order in which the truncation dict lists the agents *)
 Lemma all_done_keys_spec E s acts :
   all_done_keys (snd (raw_step E s acts)) = no_agent_left (fst (raw_step E s acts)).
 Proof.
-  unfold all_done_keys, no_agent_left, raw_step, keys, get. cbn [fst snd tterm ttrunc live].
+  unfold all_done_keys, no_agent_left, g_no_agent_left, raw_step, keys, get. cbn [fst snd tterm ttrunc live].
   rewrite map_map. cbn [fst]. rewrite map_id.
   rewrite filter_nil_forallb. apply forallb_ext_In. intros a Ha.
   rewrite (lookup_map_In _ _ _ Ha).
@@ -99,38 +143,25 @@ Lemma all_done_zip_spec E s acts :
   unaligned E = false ->
   all_done_zip (snd (raw_step E s acts)) = no_agent_left (fst (raw_step E s acts)).
 Proof.
-  intros Hu. unfold all_done_zip, no_agent_left, raw_step, vals. cbn [fst snd tterm ttrunc live].
+  intros Hu. unfold all_done_zip, no_agent_left, g_no_agent_left, raw_step, vals. cbn [fst snd tterm ttrunc live].
   rewrite Hu. rewrite !map_map. cbn [snd].
   rewrite forallb_zip_maps. symmetry. apply filter_nil_forallb.
 Qed.
 
-(* ------------------------------------------------------------------ worker = fill o reference *)
 Theorem worker_refines_single_lemma E agents s acts :
   worker_step E agents s acts =
   (fst (single_step E s acts), process_transition (kind E) agents (snd (single_step E s acts))).
-Proof.
-  unfold worker_step, worker_step_with, single_step.
-  pose proof (all_done_keys_spec E s acts) as H.
-  destruct (raw_step E s acts) as [s1 tr]. cbn [fst snd] in H. rewrite H.
-  destruct (no_agent_left s1).
-  - destruct (env_reset E s1 None) as [s2 [o i]]. reflexivity.
-  - destruct tr; reflexivity.
-Qed.
+Proof. apply (g_worker_refines_single raw_step env_reset kind live all_done_keys_spec). Qed.
 
 Theorem worker_zip_aligned_lemma E agents s acts :
   unaligned E = false -> worker_step_zip E agents s acts = worker_step E agents s acts.
 Proof.
-  intros Hu. unfold worker_step_zip, worker_step, worker_step_with.
-  pose proof (all_done_keys_spec E s acts) as H1. pose proof (all_done_zip_spec E s acts Hu) as H2.
-  destruct (raw_step E s acts) as [s1 tr]. cbn [fst snd] in *. rewrite H1, H2. reflexivity.
+  intros Hu. apply (g_worker_zip_when raw_step env_reset kind).
+  rewrite all_done_keys_spec. apply all_done_zip_spec; auto.
 Qed.
 
 Theorem wrapper_same_condition_lemma E s acts : wrapper_step E s acts = single_step E s acts.
-Proof.
-  unfold wrapper_step, single_step.
-  pose proof (all_done_keys_spec E s acts) as H.
-  destruct (raw_step E s acts) as [s1 tr]. cbn [fst snd] in H. rewrite H. reflexivity.
-Qed.
+Proof. apply (g_wrapper_same_condition raw_step env_reset live all_done_keys_spec). Qed.
 
 (* ------------------------------------------------------------------ what is visible after an auto-reset *)
 (* when the last live agent finishes, the worker resets its environment and the observation it
@@ -142,7 +173,8 @@ Theorem autoreset_first_obs_lemma E agents s acts a :
   ord (fst r) = S (ord s) /\ tm (fst r) = 0 /\
   get a (tobs (snd r)) [] = observe E (fst r) a 0%Z.
 Proof.
-  intros Hd Ha Hn. cbn zeta. rewrite worker_refines_single_lemma. unfold single_step.
+  intros Hd Ha Hn. cbn zeta. rewrite worker_refines_single_lemma. unfold single_step, g_single_step.
+  fold no_agent_left.
   destruct (raw_step E s acts) as [s1 tr] eqn:Er. cbn [fst snd] in *. rewrite Hd.
   assert (Ho : ord s1 = ord s) by (unfold raw_step in Er; injection Er as <- _; reflexivity).
   unfold env_reset. cbn [fst snd process_transition tobs live ord tm].
@@ -159,6 +191,6 @@ Theorem no_reset_while_alive_lemma E agents s acts :
   fst (worker_step E agents s acts) = fst (raw_step E s acts) /\
   snd (worker_step E agents s acts) = process_transition (kind E) agents (snd (raw_step E s acts)).
 Proof.
-  intros Hd. rewrite worker_refines_single_lemma. unfold single_step.
+  intros Hd. rewrite worker_refines_single_lemma. unfold single_step, g_single_step. fold no_agent_left.
   destruct (raw_step E s acts) as [s1 tr]. cbn [fst snd] in *. rewrite Hd. auto.
 Qed.
